@@ -51,7 +51,7 @@ class C12(Config):
               "From V.C12 Require Import Model Spec Lit Corr Wf.\n"
               "Local Open Scope Z_scope.")
     bin = "c12"
-    n_tags = 60
+    n_tags = 71
     classes = {}
     shard_size = 400
     rule = ("TransactionRequest::{from_uri,to_uri,new,from_indexed,total}, Payment::new, memo_{to,from}_base64 "
@@ -74,7 +74,18 @@ class C12(Config):
     assumptions = ["usize is 64 bits (the harness target)",
                    "Rust String/&str values are valid UTF-8, Zatoshis <= MAX_MONEY, MemoBytes is 512 bytes, BTreeMap keys "
                    "strictly increasing (type invariants; stated as wf_request in the theorems)"]
-    partial_clauses = []
+    partial_clauses = [
+        "TransactionRequest::new accepts exactly the valid sequential requests: evaluated by prop_case on every New case "
+        "and on the closed witnesses of C12_new_refuses_reserved_names; no general theorem about request_new",
+        "Payment::new, from_indexed and total (= total_spec): evaluated by prop_case only",
+        "surface rules of an accepted URI (index suffix 1..9999 without leading zero, no req- parameter, number of URI "
+        "parameters = number of request fields, i.e. nothing dropped) are evaluated by prop_case (Spec.uri_rules_ok, "
+        "uri_param_count) and follow informally from C12_accepted_is_valid + the model; not stated as theorems",
+        "no bridge theorem run_case => prop_case; prop_case is evaluated independently on every case",
+        "the address codec (ZcashAddress encode/decode, C10) is an oracle: hypotheses decode(encode a) = a, encodings "
+        "non-empty alphanumeric; for Rust's structural ZcashAddress equality the first hypothesis fails on regtest "
+        "transparent/Sprout addresses (same strings as testnet) - the harness compares addresses by canonical encoding",
+    ]
 
     @staticmethod
     def gen():
